@@ -1,7 +1,10 @@
 #!/bin/sh
 # try_seeded.sh <patch.diff> <prop>... : apply the change to /repo, run the quick checks, undo it.
 P=$1; shift
+V=$(cd "$(dirname "$0")/.." && pwd)
 git -C /repo apply $P || exit 2
-for p in "$@"; do $(dirname $0)/../check $p quick | tail -1; done
+for p in "$@"; do $V/check $p quick | tail -1; done
 git -C /repo checkout -- .
 git -C /repo status --short
+# leave the regenerated facts as they are for the unchanged tree
+$V/build/extract -repo /repo -out $V/lean/CorsVerif/Gen/Facts.lean
